@@ -1,6 +1,253 @@
-(** C16 -- scheduler output is interpreted per job id and never over-claims. *)
-From MWF Require Import Base.Str Gen.SchedTables Sched.Manuals Sched.Parse Sched.ParseProofs.
+(** C16 -- scheduler output is interpreted per job id and never over-claims.
 
+    Model: Sched/Parse.v (check_jobs of the Slurm and LSF adapters, the three
+    _state tables; tables / column indices / offsets / return-code maps are
+    regenerated from /repo's source into Gen/SchedTables.v on every run, so every
+    theorem below is re-checked against what the code says now).
+    Specification side: Sched/Manuals.v (alive / success codes copied from the
+    schedulers' manuals), the printers [print_squeue] / [print_sacct] /
+    [print_bjobs] with their well-formedness predicates, and [last_state]:
+    the state field of the LAST row whose id field EQUALS the queried id.
+    The monitors [C16_ok_slurm] / [C16_ok_lsf] / [C16_ok_flux] (through
+    [slurm_mon_ok] / [lsf_mon_ok] / [flux_mon_ok]) are what harness/props/c16.py
+    evaluates, inside Coq, on the answers of the IMPLEMENTATION. *)
+From MWF Require Import Base.Str Gen.SchedTables Sched.Manuals Sched.Parse Sched.ParseProofs
+     Sched.ParseDict Sched.ParseSlurm Sched.ParseLsf Sched.ParseC16.
+
+(* ======================================================================== *)
+(** * State tables *)
+
+(** only the scheduler's success code is ever mapped to FINISHED *)
 Theorem C16_only_success_slurm : forall c, slurm_state c = FINISHED -> In c slurm_success.
 Proof. exact slurm_only_success. Qed.
 Print Assumptions C16_only_success_slurm.
+
+Theorem C16_only_success :
+  (forall c, slurm_state c = FINISHED -> In c slurm_success) /\
+  (forall c, lsf_state c = FINISHED -> In c lsf_success) /\
+  (forall c, flux_state c = FINISHED -> In c flux_success) /\
+  (* every flux interface version of /repo *)
+  (forall v t d c, In (v, (t, d)) flux_tables -> lookup_state t d c = FINISHED -> In c flux_success).
+Proof. exact only_success_all. Qed.
+Print Assumptions C16_only_success.
+
+(** a state code the manuals document as "job still alive" is never mapped to a
+    state that makes the execution graph stop tracking (or restart) the step *)
+Theorem C16_alive_not_terminal :
+  (forall c, In c slurm_alive ->
+     ~ In (slurm_state c) [FINISHED; FAILED; TIMEDOUT; HWFAILURE; CANCELLED; UNKNOWN]) /\
+  (forall c, In c lsf_alive ->
+     ~ In (lsf_state c) [FINISHED; FAILED; TIMEDOUT; HWFAILURE; CANCELLED; UNKNOWN]) /\
+  (forall c, In c flux_alive ->
+     ~ In (flux_state c) [FINISHED; FAILED; TIMEDOUT; HWFAILURE; CANCELLED; UNKNOWN]) /\
+  (forall v t d c, In (v, (t, d)) flux_tables -> In c flux_alive ->
+     ~ In (lookup_state t d c) [FINISHED; FAILED; TIMEDOUT; HWFAILURE; CANCELLED; UNKNOWN]).
+Proof. exact alive_not_terminal_all. Qed.
+Print Assumptions C16_alive_not_terminal.
+
+(** the lists are not vacuous: the success codes do map to FINISHED *)
+Example C16_success_maps_finished :
+  forallb (fun c => State_eqb (slurm_state c) FINISHED) slurm_success
+  && forallb (fun c => State_eqb (lsf_state c) FINISHED) lsf_success
+  && forallb (fun c => State_eqb (flux_state c) FINISHED) flux_success = true.
+Proof. exact success_maps_finished. Qed.
+
+(** LSF: EXIT is refined by the termination reason, nothing else is *)
+Theorem C16_lsf_exit_refinement : forall stat reason,
+  (stat <> s "EXIT" -> lsf_effective stat reason = stat) /\
+  lsf_state (lsf_effective (s "EXIT") reason) =
+    (if contains lsf_term_runlimit reason then TIMEDOUT
+     else if contains lsf_term_owner reason then CANCELLED
+     else FAILED).
+Proof. exact lsf_effective_spec. Qed.
+Print Assumptions C16_lsf_exit_refinement.
+
+(* ======================================================================== *)
+(** * Return codes -- for ANY output text, well-formed or not *)
+
+(** a query command that exits non-zero contributes a code other than OK and
+    leaves the dictionary untouched (squeue, sacct); LSF's check_jobs then
+    returns that code with every queried id at None; whenever LSF's code is
+    not OK no entry of the dictionary is a state *)
+Theorem C16_rc :
+  (forall st out rc, rc <> 0%Z ->
+     exists c, squeue_query st out rc = Some (c, st) /\ c <> JS_OK) /\
+  (forall st out rc, rc <> 0%Z ->
+     exists c, sacct_query st out rc = Some (c, st) /\ c <> JS_OK) /\
+  (forall jl out rc code st, lsf_check_jobs jl out rc = Ret code st ->
+     (rc <> 0%Z -> code <> JS_OK /\ st = init_status jl) /\
+     (code <> JS_OK -> forall j v, In (j, v) st -> v = None)).
+Proof. exact rc_queries. Qed.
+Print Assumptions C16_rc.
+
+(** Slurm's combined code: OK only if squeue or sacct exited 0; on a non-OK
+    code no entry is a state; the code is OK iff one of the commands that were
+    run returned OK, NOJOBS iff all of them returned NOJOBS, ERROR otherwise *)
+Theorem C16_rc_slurm : forall jl sq_out sq_rc sa_out sa_rc code st,
+  slurm_check_jobs jl sq_out sq_rc sa_out sa_rc = Ret code st ->
+  (code = JS_OK -> sq_rc = 0%Z \/ sa_rc = 0%Z) /\
+  (code <> JS_OK -> forall j v, In (j, v) st -> v = None) /\
+  exists cs,
+    (cs = [code_of sq_rc_map sq_rc_default sq_rc] \/
+     cs = [code_of sq_rc_map sq_rc_default sq_rc; code_of sa_rc_map sa_rc_default sa_rc]) /\
+    (code = JS_OK <-> In JS_OK cs) /\
+    (code = JS_NOJOBS <-> ~ In JS_OK cs /\ forall c, In c cs -> c = JS_NOJOBS) /\
+    (code = JS_ERROR <-> ~ In JS_OK cs /\ exists c, In c cs /\ c <> JS_NOJOBS).
+Proof. exact rc_slurm. Qed.
+Print Assumptions C16_rc_slurm.
+
+(* ======================================================================== *)
+(** * The specification function [last_state] *)
+
+(** [last_state ps j = Some c]: the rows are [a ++ (j, c) :: b] and no row of
+    [b] has id [j];  [None]: no row has id [j] *)
+Theorem C16_last_state_some : forall ps j c,
+  last_state ps j = Some c <->
+  exists a b, ps = a ++ (j, c) :: b /\ forall p, In p b -> fst p <> j.
+Proof. exact last_state_some. Qed.
+Print Assumptions C16_last_state_some.
+
+Theorem C16_last_state_none : forall ps j,
+  last_state ps j = None <-> (forall p, In p ps -> fst p <> j).
+Proof. exact last_state_none. Qed.
+Print Assumptions C16_last_state_none.
+
+(** rows of other ids (prefixes, extensions, job steps, other users' jobs)
+    never influence the answer for [j] *)
+Theorem C16_other_rows_irrelevant : forall a b i c j,
+  i <> j -> last_state (a ++ (i, c) :: b) j = last_state (a ++ b) j.
+Proof. exact last_state_other_row. Qed.
+Print Assumptions C16_other_rows_irrelevant.
+
+(* ======================================================================== *)
+(** * Printer / parser round trips -- every table, every queried id list
+
+    [wf_squeue] / [wf_sacct] / [wf_bjobs] (Sched/Parse.v) are the explicit
+    conditions on the fields: a token is non-empty and contains no white space
+    (hence no newline); padding is white space other than newline, of any
+    width (at least one character between two tokens); a bjobs field contains
+    neither '|' nor newline and no white space at either end, the id field is
+    non-empty; blank / short lines are allowed anywhere; header lines contain
+    no newline.  [wf_joblist]: no queried id is the empty string. *)
+
+(** squeue: for every queried id the state of the last row whose id field
+    equals it, None ("no information") if there is no such row; ids that were
+    not queried are not keys *)
+Theorem C16_roundtrip_squeue : forall jl t,
+  wf_joblist jl = true -> wf_squeue t = true ->
+  exists st,
+    squeue_query (init_status jl) (print_squeue t) 0 = Some (JS_OK, st) /\
+    (forall j, In j jl -> get st j = Some (option_map slurm_state (last_state (sq_pairs t) j))) /\
+    (forall j, ~ In j jl -> get st j = None).
+Proof. exact roundtrip_squeue. Qed.
+Print Assumptions C16_roundtrip_squeue.
+
+Theorem C16_roundtrip_sacct : forall jl t,
+  wf_joblist jl = true -> wf_sacct t = true ->
+  exists st,
+    sacct_query (init_status jl) (print_sacct t) 0 = Some (JS_OK, st) /\
+    (forall j, In j jl -> get st j = Some (option_map slurm_state (last_state (sa_pairs t) j))) /\
+    (forall j, ~ In j jl -> get st j = None).
+Proof. exact roundtrip_sacct. Qed.
+Print Assumptions C16_roundtrip_sacct.
+
+(** Slurm's check_jobs, any exit codes: the rows it gets to see are squeue's
+    (if squeue exited 0) followed -- only if some queried id is still without
+    a row -- by sacct's (if sacct exited 0); sacct is started in exactly that
+    case (second component = number of commands started); never an exception *)
+Theorem C16_roundtrip_slurm : forall jl sq sq_rc sa sa_rc,
+  wf_joblist jl = true -> wf_squeue sq = true -> wf_sacct sa = true ->
+  exists code st,
+    slurm_run jl (print_squeue sq) sq_rc (print_sacct sa) sa_rc
+      = (Ret code st, if slurm_missing jl sq sq_rc then 2 else 1) /\
+    (forall j, In j jl ->
+       get st j = Some (option_map slurm_state (last_state (slurm_seen jl sq sq_rc sa sa_rc) j))) /\
+    (forall j, ~ In j jl -> get st j = None).
+Proof. exact roundtrip_slurm. Qed.
+Print Assumptions C16_roundtrip_slurm.
+
+Theorem C16_slurm_seen_zero : forall jl sq sa,
+  slurm_missing jl sq 0 = existsb (fun j => is_none (last_state (sq_pairs sq) j)) jl /\
+  slurm_seen jl sq 0 sa 0 = sq_pairs sq ++ (if slurm_missing jl sq 0 then sa_pairs sa else []).
+Proof. exact slurm_seen_zero. Qed.
+Print Assumptions C16_slurm_seen_zero.
+
+(** bjobs: the state code of a row is its STAT field, EXIT refined by the
+    exit reason ([bj_pairs], [C16_lsf_exit_refinement]) *)
+Theorem C16_roundtrip_bjobs : forall jl t,
+  wf_joblist jl = true -> wf_bjobs t = true -> lsf_nojob (print_bjobs t) = false ->
+  exists st,
+    lsf_check_jobs jl (print_bjobs t) 0 = Ret JS_OK st /\
+    (forall j, In j jl -> get st j = Some (option_map lsf_state (last_state (bj_pairs t) j))) /\
+    (forall j, ~ In j jl -> get st j = None).
+Proof. exact roundtrip_bjobs. Qed.
+Print Assumptions C16_roundtrip_bjobs.
+
+Theorem C16_bjobs_row_code : forall r,
+  bj_pair (BjRow r) = [(lf_text (b_id r), lsf_effective (lf_text (b_stat r)) (lf_text (b_reason r)))].
+Proof. exact bj_pair_row. Qed.
+Print Assumptions C16_bjobs_row_code.
+
+(** output starting with "No<white space>" ("No unfinished job found"): NOJOBS, no states *)
+Theorem C16_bjobs_nojob : forall jl t,
+  wf_joblist jl = true -> wf_bjobs t = true -> lsf_nojob (print_bjobs t) = true ->
+  lsf_check_jobs jl (print_bjobs t) 0 = Ret JS_NOJOBS [].
+Proof. exact bjobs_nojob. Qed.
+Print Assumptions C16_bjobs_nojob.
+
+(* ======================================================================== *)
+(** * The monitors hold of the model on every input
+
+    [C16_ok_slurm jl sq sq_rc sa sa_rc obs] / [C16_ok_lsf jl t rc obs] say of an
+    answer [obs]: no exception; OK only if a command that was run exited 0,
+    otherwise every entry is None; the code obeys the combination rule; every
+    queried id has exactly the [last_state] answer and nothing else is a key; an
+    id whose row carries an alive code has a non-terminal state; FINISHED only
+    for a row carrying the success code. *)
+Theorem C16_monitor_slurm : forall jl sq sq_rc sa sa_rc,
+  wf_joblist jl = true -> wf_squeue sq = true -> wf_sacct sa = true ->
+  C16_ok_slurm jl sq sq_rc sa sa_rc
+    (slurm_check_jobs jl (print_squeue sq) sq_rc (print_sacct sa) sa_rc) = true.
+Proof. exact slurm_monitor. Qed.
+Print Assumptions C16_monitor_slurm.
+
+Theorem C16_monitor_lsf : forall jl t rc,
+  wf_joblist jl = true -> wf_bjobs t = true ->
+  C16_ok_lsf jl t rc (lsf_check_jobs jl (print_bjobs t) rc) = true.
+Proof. exact lsf_monitor. Qed.
+Print Assumptions C16_monitor_lsf.
+
+Theorem C16_monitor_flux : forall v t d code,
+  In (v, (t, d)) flux_tables -> C16_ok_flux code (lookup_state t d code) = true.
+Proof. exact flux_monitor_all. Qed.
+Print Assumptions C16_monitor_flux.
+
+(** exactly the boolean functions the correspondence run applies to the
+    implementation's answers, here applied to the model's *)
+Theorem C16_monitors_as_run :
+  (forall jl sq sq_rc k1 sa sa_rc k2,
+     slurm_mon_ok (jl, (sq, sq_rc, k1), (sa, sa_rc, k2),
+                   slurm_run jl (print_squeue sq) sq_rc (print_sacct sa) sa_rc) = true) /\
+  (forall jl t rc k, lsf_mon_ok (jl, (t, rc, k), lsf_check_jobs jl (print_bjobs t) rc) = true) /\
+  (forall ver code, flux_mon_ok (ver, code, flux_state code) = true).
+Proof. exact (conj slurm_mon_model (conj lsf_mon_model flux_mon_model)). Qed.
+Print Assumptions C16_monitors_as_run.
+
+(* ======================================================================== *)
+(** * Non-vacuity: the hypotheses are satisfiable -- ids that are prefixes of
+      one another (12, 123, 1234), another user's job, a job-step row
+      (12.batch), a truncated CANCELLED+, blank lines, padding *)
+Example C16_example_wf :
+  wf_joblist ex_jl && wf_squeue ex_sq && wf_sacct ex_sa && wf_bjobs ex_bj
+  && negb (lsf_nojob (print_bjobs ex_bj)) = true.
+Proof. vm_compute; reflexivity. Qed.
+
+Example C16_example_slurm :
+  slurm_run ex_jl (print_squeue ex_sq) 0 (print_sacct ex_sa) 0
+  = (Ret JS_OK [kv (s "12") CANCELLED; kv (s "123") FINISHING; kn (s "9")], 2).
+Proof. vm_compute; reflexivity. Qed.
+
+Example C16_example_lsf :
+  lsf_check_jobs ex_jl (print_bjobs ex_bj) 0
+  = Ret JS_OK [kv (s "12") RUNNING; kv (s "123") TIMEDOUT; kn (s "9")].
+Proof. vm_compute; reflexivity. Qed.
